@@ -106,10 +106,30 @@ fn judge_encoder<T: HLabel>(
     rs: &RefSem,
     enc: Enc,
     with_range: bool,
+    warm: bool,
 ) -> Option<(String, Value)> {
     let n = case.abs.n;
-    let name = format!("{}{}", enc.name(), if with_range { "+range" } else { "" });
+    let name = format!("{}{}{}", enc.name(), if with_range { "+range" } else { "" }, if warm { "+reused-encoder" } else { "" });
     let encoder = enc.make::<T>();
+    if warm {
+        // the same encoder object has encoded another framework before (as the solvers do: one
+        // encoder per solver object, one encoding per component and per query)
+        let labels: Vec<T> = (0..13).map(T::nth).collect();
+        let mut waf = crustabri::aa::AAFramework::new_with_argument_set(crustabri::aa::ArgumentSet::new_with_labels(&labels));
+        // two targets above the hybrid threshold, self-attacks, a 2-cycle
+        for (a, b) in [(1, 0), (2, 0), (3, 0), (4, 0), (5, 0), (6, 1), (7, 1), (6, 2), (7, 2), (8, 3), (9, 3), (8, 4), (9, 4), (10, 5), (11, 5), (12, 12), (12, 6), (6, 7), (7, 6), (0, 11), (1, 11), (2, 11), (3, 11), (4, 11)] {
+            let _ = waf.new_attack(&labels[a], &labels[b]);
+        }
+        let mut throwaway = RecSolver::default();
+        let _ = catch(|| {
+            if with_range {
+                encoder.encode_constraints_and_range(&waf, &mut throwaway)
+            } else {
+                encoder.encode_constraints(&waf, &mut throwaway)
+            }
+        });
+        ctx.count("cnfs_from_reused_encoder_objects");
+    }
     let mut rec = RecSolver::default();
     let r = catch(|| {
         if with_range {
@@ -346,13 +366,17 @@ fn eval_case(ctx: &mut Ctx, case: &StaticCase, only: Option<(Enc, bool)>) {
                     ctx.count("skipped/exp-encoder-clause-explosion");
                     continue;
                 }
-                if let Some((sig, detail)) = judge_encoder(ctx, case, built, rs, enc, with_range) {
-                    let mut d = detail;
-                    if let Value::Object(m) = &mut d {
-                        m.insert("encoder".to_string(), json!(enc.name()));
-                        m.insert("with_range".to_string(), json!(with_range));
+                for warm in [false, true] {
+                    if let Some((sig, detail)) = judge_encoder(ctx, case, built, rs, enc, with_range, warm) {
+                        let mut d = detail;
+                        if let Value::Object(m) = &mut d {
+                            m.insert("encoder".to_string(), json!(enc.name()));
+                            m.insert("with_range".to_string(), json!(with_range));
+                            m.insert("encoder_object_reused".to_string(), json!(warm));
+                        }
+                        ctx.violation(&sig, d, &case.to_json());
+                        break;
                     }
-                    ctx.violation(&sig, d, &case.to_json());
                 }
             }
         }
